@@ -10,7 +10,7 @@ import json, os, re, subprocess, sys, time
 VERIF = os.path.dirname(os.path.dirname(os.path.abspath(__file__)))
 SEEDED = os.path.join(VERIF, "seeded")
 # checks other than the one of the property the change was written against that are (also) run
-EXTRA = {"C05-r2m1": ["C06"], "C18-m2": ["C19"], "C14-r3m1": ["C15"], "C02-r4m1": ["C15"], "C02-r4m2": ["C15", "C03"]}
+EXTRA = {"C05-r2m1": ["C06"], "C18-m2": ["C19"], "C14-r3m1": ["C15"], "C02-r4m1": ["C15"], "C02-r4m2": ["C15", "C03"], "C14-r5m1": ["C15"]}
 BUDGET = os.environ.get("SWEEP_QUICK_S", "40")
 
 
